@@ -133,3 +133,98 @@ def diff(before: dict, after: dict):
 
 def rand_name(rng=None) -> str:
     return secrets.token_hex(4)
+
+
+# --------------------------------------------------------------------------- C02 / C05 capsules
+
+SAFE_NAMES = ["index.gmi", "about.gmi", "notes.txt", "a.gmi", "b.gmi", "data.md", "readme", "x.y.z.gmi", "UPPER.GMI"]
+ODD_NAMES = [
+    "hello world.gmi", "semi;colon.gmi", "plus+sign.gmi", "q?mark.gmi", "hash#tag.gmi", "amp&ersand.gmi", "at@sign.gmi",
+    "colon:name.gmi", "comma,name.gmi", "eq=name.gmi", "tilde~.gmi", "paren(1).gmi", "quote'.gmi", "dollar$.gmi", "bang!.gmi",
+    "star*.gmi", "café.gmi", "中文.gmi", "emoji\U0001F600.gmi", "back\\slash.gmi", "pct%41.gmi", "100%.txt", "trailingdot.",
+    "..hidden", "...", ".dotfile", "sp  ace", "-dash", "[brackets].gmi", "{curly}.gmi", "pipe|.gmi", "caret^.gmi", "quote\".gmi", "lt<gt>.gmi",
+]
+
+
+def capsule_tree(rng, base: str, symlinks=True, odd_names=True, root_via_symlink=False):
+    """Build <base>/site (document root), <base>/site-private, <base>/site2 (prefix-sharing siblings),
+    <base>/outside.  Every file's content is a unique token line.  Returns metadata dict."""
+    real_root = os.path.join(base, "site")
+    os.makedirs(real_root)
+    meta = {"base": base, "files": [], "dirs": [], "tokens": {}, "outside_names": [], "links": []}
+
+    def add_file(path, inside_expected):
+        tok = token(rng)
+        content = f"{tok}\nsecond line of {os.path.basename(path)!r}\n".encode("utf-8", "backslashreplace")
+        os.makedirs(os.path.dirname(path), exist_ok=True)
+        with open(path, "wb") as f:
+            f.write(content)
+        rec = {"abs": path, "token": tok, "content": content, "name": os.path.basename(path)}
+        meta["files"].append(rec)
+        meta["tokens"][tok] = rec
+        return rec
+
+    # inside
+    dirs = [real_root]
+    for d in range(rng.randint(1, 4)):
+        parent = rng.choice(dirs)
+        name = rng.choice(["docs", "blog", "sub", "deep", "a", "pub", "x.d", "with space", "dïr"]) + (str(d) if rng.random() < 0.5 else "")
+        p = os.path.join(parent, name)
+        if not os.path.exists(p):
+            os.makedirs(p)
+            dirs.append(p)
+    for d in dirs:
+        names = rng.sample(SAFE_NAMES, rng.randint(1, 3))
+        if odd_names:
+            names += rng.sample(ODD_NAMES, rng.randint(0, 3))
+        if rng.random() < 0.3 and "index.gmi" in names:
+            names.remove("index.gmi")
+        for n in names:
+            p = os.path.join(d, n)
+            if not os.path.exists(p):
+                add_file(p, True)
+    if rng.random() < 0.4:
+        add_file(os.path.join(real_root, "n" * 200 + ".gmi"), True)
+    # outside and prefix-sharing siblings
+    outs = []
+    for oname in ("site-private", "site2", "outside"):
+        od = os.path.join(base, oname)
+        os.makedirs(od)
+        outs.append(od)
+        for i in range(2):
+            secret_name = "OUT" + token(rng) + ".gmi"
+            add_file(os.path.join(od, secret_name), False)
+            meta["outside_names"].append(secret_name)
+        add_file(os.path.join(od, "index.gmi"), False)
+        sub = os.path.join(od, "sub")
+        os.makedirs(sub)
+        secret_name = "OUT" + token(rng) + ".txt"
+        add_file(os.path.join(sub, secret_name), False)
+        meta["outside_names"].append(secret_name)
+    if symlinks:
+        def link(target, at):
+            if not os.path.lexists(at):
+                os.symlink(target, at)
+                meta["links"].append((at, target))
+
+        out_files = [f["abs"] for f in meta["files"] if not f["abs"].startswith(real_root + "/")]
+        in_files = [f["abs"] for f in meta["files"] if f["abs"].startswith(real_root + "/")]
+        link(rng.choice(out_files), os.path.join(rng.choice(dirs), "link-file-out.gmi"))
+        link(rng.choice(outs), os.path.join(rng.choice(dirs), "link-dir-out"))
+        link(os.path.join("..", "site-private"), os.path.join(real_root, "rel-link-out"))
+        link(rng.choice(in_files), os.path.join(rng.choice(dirs), "link-file-in.gmi"))
+        link(rng.choice(dirs), os.path.join(rng.choice(dirs), "link-dir-in"))
+        link(os.path.join(base, "does-not-exist"), os.path.join(rng.choice(dirs), "dangling"))
+        link("loop-b", os.path.join(real_root, "loop-a"))
+        link("loop-a", os.path.join(real_root, "loop-b"))
+        link(".", os.path.join(rng.choice(dirs), "self-dir"))
+        link("/", os.path.join(rng.choice(dirs), "fsroot"))
+        link(base, os.path.join(rng.choice(dirs), "link-base"))
+    root = real_root
+    if root_via_symlink:
+        root = os.path.join(base, "site-link")
+        os.symlink("site", root)
+    meta["root"] = root
+    meta["real_root"] = os.path.realpath(real_root)
+    meta["dirs"] = dirs
+    return meta
